@@ -16,6 +16,7 @@ partial def loop (h : IO.FS.Stream) (out : IO.FS.Stream) : IO Unit := do
     | [] => "bad-op"
     | op :: args => (Frrs.Ops.dispatch op args).getD "bad-op"
   out.putStrLn reply
+  out.flush
   loop h out
 
 def main : IO Unit := do
